@@ -831,3 +831,24 @@ Proof.
         -- apply boundary_inset; [exact Pa | apply first_pt_on_boundary; assumption].
         -- apply contained_inset; assumption.
 Qed.
+
+(* ------------------------------------------------------------------ corollaries / a new finding *)
+Theorem edge_part_meaning a b :
+  edge_part a b = true <->
+  exists ea eb, In ea (all_edges a) /\ In eb (all_edges b) /\ nonparallel ea eb /\
+    exists xn yn dv, 0 < dv /\ on_seg_q ea xn yn dv /\ on_seg_q eb xn yn dv.
+Proof.
+  unfold edge_part, brute. rewrite existsb_exists. split.
+  - intros [ea [Ha H]]. apply existsb_exists in H as [eb [Hb H]]. apply hit_spec in H as [H1 H2].
+    exists ea, eb. auto.
+  - intros [ea [eb [Ha [Hb [H1 H2]]]]]. exists ea. split; [exact Ha|].
+    apply existsb_exists. exists eb. split; [exact Hb|]. apply hit_spec. auto.
+Qed.
+
+(* NEW finding: two collinear paths meeting end to end -- the answer depends on which end of
+   a path is listed first (the first-vertex fallback decides; no edge pair "hits") *)
+Theorem line_reversal_refuted :
+  exists vs us,
+    intersects_shape (-180) (Ln vs None) (Ln us None) = Ok true /\
+    intersects_shape (-180) (Ln vs None) (Ln (rev us) None) = Ok false.
+Proof. exists [(0, 0); (4, 0)], [(4, 0); (8, 0)]. split; vm_compute; reflexivity. Qed.
